@@ -379,6 +379,46 @@ def check(run, repo, world):
     _check_find_next(run, repo, world, cfg, ys, ynode)
     _check_advance(run, mod, C, fn)
 
+    # ---- R-COMM-EXIT ------------------------------------------------------
+    run.rule("R-COMM-EXIT", "the search loops are left only on conditions "
+             "about the search itself (nothing found, top of the range, a "
+             "clash, the modes): no counter or budget abandons units that "
+             "could still be addressed")
+    ALLOWED = {"finished", "low", "high", "dry_run", "readdress",
+               "available_addresses", "True", "False", "None"}
+    parent_ = {}
+    for x_ in ast.walk(fn):
+        for ch_ in ast.iter_child_nodes(x_):
+            parent_[id(ch_)] = x_
+    # only the loops that send the search commands
+    loops_ = [w_ for w_ in ast.walk(fn) if isinstance(w_, ast.While) and any(
+        isinstance(c_, ast.Call) and unparse(c_.func) in (
+            "Randomise", "_find_next") for c_ in ast.walk(w_))]
+    tests_ = [(w_.test, w_) for w_ in loops_]
+    for w_ in loops_:
+        for b_ in ast.walk(w_):
+            if not isinstance(b_, ast.Break):
+                continue
+            p_, child_ = parent_.get(id(b_)), b_
+            while p_ is not None and p_ is not w_:
+                if isinstance(p_, ast.If):
+                    tests_.append((p_.test, p_))
+                if isinstance(p_, (ast.While, ast.For)):
+                    break          # the break leaves an inner loop
+                child_, p_ = p_, parent_.get(id(p_))
+    strange = []
+    for (t_, at_) in tests_:
+        names_ = {n_.id for n_ in ast.walk(t_) if isinstance(n_, ast.Name)}
+        if not names_ <= ALLOWED:
+            strange.append((unparse(t_), sorted(names_ - ALLOWED), at_))
+    run.ob("R-COMM-EXIT", C + "#search-loops", not strange and bool(loops_),
+           "the search can be left when `%s` (%s is not part of the search "
+           "state): units that have not been found yet stay unaddressed "
+           "although addresses remain" % (
+               strange[0][0] if strange else "", strange[0][1]
+               if strange else ""), where(mod, strange[0][2]) if strange
+           else where(mod, fn))
+
     # ---- R-COMM-RERAND ----------------------------------------------------
     run.rule("R-COMM-RERAND", "no path from Withdraw (after a real "
              "ProgramShortAddress) to Randomise without Terminate + "
@@ -1058,8 +1098,11 @@ def _check_advance(run, mod, C, fn):
                         ("le", "low", "high", 0)])[0]
                 except pred.Unrecognised:
                     fin_true = False
-            if not fin_true:
-                other.append((p_, "stops without finished = True"))
+            # whether the sequence really ends here (and does not draw
+            # new random addresses with the withdrawn units still
+            # initialised) is R-COMM-RERAND's question, decided on the CFG
+            # whatever flag or loop exit is used
+            del fin_true
             stop.append(d)
         elif lin(new) == Lin.sym("low") + 1:
             cont.append(d)
